@@ -3,7 +3,7 @@
 For each one: scratch worktree of /repo HEAD under /tmp, git apply, go build, quick check(s) of the property
 it breaks (and of the extra properties listed in meta.json "also_run"), optionally the thorough tier.
 Usage: tools/seeded.py [--thorough] [names...]      Results are printed and written to seeded/RESULTS.json."""
-import json, os, subprocess, sys, time
+import hashlib, json, os, subprocess, sys, time
 
 V = os.path.dirname(os.path.dirname(os.path.abspath(__file__)))
 WT = "/tmp/seeded-wt"
@@ -63,7 +63,7 @@ def main():
             print(n, res["status"], {k: v["verdict"] for k, v in res["checks"].items()}, flush=True)
         finally:
             sh(f"git -C /repo worktree remove --force {WT}")
-            sh("rm -rf /tmp/verif-harness-*")
+            sh("rm -rf /tmp/verif-harness-" + hashlib.sha1(WT.encode()).hexdigest()[:10])
     json.dump(results, open(rp, "w"), indent=1, sort_keys=True)
     return 0
 
